@@ -40,6 +40,7 @@ def r_C03eval(root):
             if isinstance(x, tuple) and x[0] in ("not", "and"): return E("Not" if x[0] == "not" else "And", roots[x[1]])
             if isinstance(x, tuple) and x[0] == "seq": return E("Sequence", *[item(y) for y in x[1]])
             if isinstance(x, tuple) and x[0] == "opt": return E("Optional", *[item(y) for y in x[1]])
+            if isinstance(x, tuple) and x[0] == "alt": return E("OrderedChoice", *[item(y) for y in x[1]])
             if x.startswith("'"): return match(x)
             return roots[x]
         for _ in range(len(spec)):
@@ -59,7 +60,10 @@ def r_C03eval(root):
         env = dict(consts); env.update({"__functions__": fns, "__classes__": exprs.classes_env(), "__module__": t, ps[0]: {".kind": "visitor", ".debug": False, ".metamodel": mm}, ps[1]: mm})
         try: pyeval.run_block(fn.body, env)
         except pyeval.Raised as r_: return "raises %s" % r_.cls, None
-        except pyeval.Unsupported as u_: raise AnalysisError("_determine_rule_types: outside the evaluated subset: %s" % u_)
+        except RecursionError: return "does not terminate: RecursionError", None
+        except pyeval.Unsupported as u_:
+            if "recursion depth" in str(u_): return "does not terminate: RecursionError", None
+            raise AnalysisError("_determine_rule_types: outside the evaluated subset: %s" % u_)
         inv = {COMMON: "common", ABSTRACT: "abstract", MATCH: "match"}
         return None, {n: (inv.get(c["._tx_type"], c["._tx_type"]), [x[".__name__"] for x in c["._tx_inh_by"]]) for n, c in clss.items()}
     BASE = {"INT": ("match", None), "ID": ("match", None)}
@@ -91,6 +95,15 @@ def r_C03eval(root):
         ("Val: Num | Obj; Num: INT | ID; Obj: x=..;",
          dict(BASE, Val=("choice", ["Num", "Obj"]), Num=("choice", ["INT", "ID"]), Obj=("common", None)),
          {"Val": ("abstract", ["Obj"]), "Num": ("match", [])}),
+        ("Expr: (Lit | 'none') Unit | Group; Lit: x=..; Unit: x=..; Group: x=..;     (a bracketed choice whose last alternative yields nothing, at the head of a sequence)",
+         dict(BASE, Expr=("choice", [("seq", [("alt", ["Lit", "'none'"]), "Unit"]), "Group"]), Lit=("common", None), Unit=("common", None), Group=("common", None)),
+         {"Expr": ("abstract", ["Lit", "Group"])}),
+        ("Arg: (Kw | 'x') Obj | Other; Kw: 'a'|'b'; Obj: x=..; Other: x=..;     (the bracketed choice yields nothing at all: the next reference counts)",
+         dict(BASE, Arg=("choice", [("seq", [("alt", ["Kw", "'x'"]), "Obj"]), "Other"]), Kw=("matchchoice", ["'a'", "'b'"]), Obj=("common", None), Other=("common", None)),
+         {"Arg": ("abstract", ["Obj", "Other"])}),
+        ("Item: Group | Leaf; Group: '(' Group ')' | INT; Leaf: x=..;     (a recursive match rule among the alternatives)",
+         dict(BASE, Item=("choice", ["Group", "Leaf"]), Group=("choice", [("seq", ["'('", "Group", "')'"]), "INT"]), Leaf=("common", None)),
+         {"Item": ("abstract", ["Leaf"]), "Group": ("match", [])}),
         ("Stmt: 'do' Block | Simple; Block: x=..; Simple: Assign | Call; Assign: x=..; Call: x=..;",
          dict(BASE, Stmt=("choice", [("seq", ["'do'", "Block"]), "Simple"]), Block=("common", None), Simple=("choice", ["Assign", "Call"]), Assign=("common", None), Call=("common", None)),
          {"Stmt": ("abstract", ["Block", "Simple"]), "Simple": ("abstract", ["Assign", "Call"])}),
